@@ -173,7 +173,7 @@ class Impl:
         self.fns = make_functions(scn)
         self.ov = ovld.Ovld()
         for i in (scn["defs0"] if defs is None else defs):
-            self.ov.register(self.fns[i])
+            self.ov.register(self.fns[i], priority=scn["methods"][i].get("prio", 0))
         self.f = self.ov.dispatch
 
     def do(self, op):
@@ -183,7 +183,7 @@ class Impl:
             if kind == "call":
                 self.f(KEYVALS[self.scn["keys"][arg]])
             elif kind == "reg":
-                self.f.register(self.fns[arg])
+                self.ov.register(self.fns[arg], priority=self.scn["methods"][arg].get("prio", 0))
             else:
                 self.f.unregister(self.fns[arg])
             return [list(TR.t), "ret"]
@@ -316,7 +316,7 @@ def visible_counts(scn, rows, trigger):
 # Visible steps of the build / the resolution, anchored in the SOURCE TEXT of the library (not in line numbers):
 MARKER_PATTERNS = [
     ("core.py", r"self\._defns\[sig\]\s*=\s*fn", "DEFS"),
-    ("core.py", r"self\._defns\s*=\s*\{", "DEFS"),
+    ("core.py", r"self\._defns\s*=\s*\{\s*sig", "DEFS"),
     ("core.py", r"self\.map\s*=\s*MultiTypeMap\(", "NEWMAP"),
     ("core.py", r"self\.dispatch\.__code__\s*=", "SWAP"),
     ("core.py", r"self\._compiled\s*=\s*True", "FLAG"),
@@ -375,11 +375,12 @@ def is_lib_file(fn):
 class Tracer:
     """sys.settrace tracer over the library's lines.  Counts line events, tracks which marker statements have started /
     completed, optionally raises an exception at event number `inject_at` (before that line executes)."""
-    def __init__(self, inject_at=None, exc=None, keep_events=False):
+    def __init__(self, inject_at=None, exc=None, keep_events=False, inject_when=None):
         self.starts, self.spans, self.missing = marker_table()
         self.n = 0
         self.depth = 0
         self.inject_at = inject_at
+        self.inject_when = inject_when   # ("KIND", n): at the first event at which n markers of that kind have completed
         self.exc = exc
         self.fired = None
         self.done = []          # kinds of completed markers, in order
@@ -389,6 +390,7 @@ class Tracer:
         self.events = []
         self.stack_at_fire = None
         self.snap = None
+        self.on_line = None
 
     def snapshot(self):
         return {"done": list(self.done), "inflight": [x[0] for x in self.inflight], "started": list(self.started), "event": self.n}
@@ -419,7 +421,12 @@ class Tracer:
         self.n += 1
         if self.keep:
             self.events.append((os.path.basename(fn), ln, frame.f_code.co_name, d))
-        if self.inject_at is not None and k == self.inject_at and self.fired is None:
+        if self.on_line is not None:
+            self.on_line(self)
+        hit = self.inject_at is not None and k == self.inject_at
+        if self.inject_when is not None and self.fired is None:
+            hit = self.done.count(self.inject_when[0]) >= self.inject_when[1]
+        if hit and self.fired is None:
             self.fired = (os.path.basename(fn), ln, frame.f_code.co_name)
             names = []
             fr = frame
@@ -445,3 +452,111 @@ class Tracer:
             return thunk()
         finally:
             sys.settrace(old)
+
+
+# ----------------------------------------------------------------------------------------------- cooperative scheduler
+SEG_KINDS = {"STEP": 0, "FIRST": 1, "END": 2, "DEFS": 5, "NEWMAP": 11, "SWAP": 13, "CNMAP": 15, "REG": 16, "FLAG": 17, "ALL": 21, "WRITE": 22}
+
+
+class Sched:
+    """Runs one operation per thread on the same function; every executed library line of every thread is a scheduling
+    point: a thread runs only between `step(i)` and its next line event (per-thread semaphores), so a schedule is replayed
+    deterministically.  Segments: [tid, kind, n] = thread tid runs until n more marker statements of that kind have
+    completed in it (FIRST: until its first line event, i.e. just after the call read the entry point; STEP: n lines;
+    END: to completion)."""
+    def __init__(self, im, ops, timeout=20.0):
+        self.im = im
+        self.ops = ops
+        n = len(ops)
+        self.sems = [threading.Semaphore(0) for _ in range(n)]
+        self.ctrl = threading.Semaphore(0)
+        self.done = [False] * n
+        self.results = [None] * n
+        self.tracers = [Tracer() for _ in range(n)]
+        self.timeout = timeout
+        self.lines = [0] * n
+        self.threads = []
+        self.dead = False
+        for i in range(n):
+            self.tracers[i].on_line = self._make_yield(i)
+            t = threading.Thread(target=self._body, args=(i,), daemon=True)
+            self.threads.append(t)
+            t.start()
+
+    def _make_yield(self, i):
+        def y(tr):
+            self.ctrl.release()
+            if not self.sems[i].acquire(timeout=self.timeout):
+                raise SystemExit
+        return y
+
+    def _body(self, i):
+        if not self.sems[i].acquire(timeout=self.timeout):
+            return
+        tr = self.tracers[i]
+        sys.settrace(tr.glob)
+        try:
+            self.results[i] = self.im.do(self.ops[i])
+        finally:
+            sys.settrace(None)
+            self.done[i] = True
+            self.ctrl.release()
+
+    def step(self, i):
+        """let thread i execute up to its next library line (or to its end)"""
+        if self.done[i]:
+            return False
+        self.sems[i].release()
+        if not self.ctrl.acquire(timeout=self.timeout):
+            self.dead = True
+            raise RuntimeError("scheduler: thread did not come back")
+        self.lines[i] += 1
+        return True
+
+    def segment(self, tid, kind, n):
+        tr = self.tracers[tid]
+        if kind == "FIRST":
+            while not self.done[tid] and tr.n < 1:
+                self.step(tid)
+            return
+        if kind == "END":
+            while not self.done[tid]:
+                self.step(tid)
+            return
+        if kind == "STEP":
+            for _ in range(n):
+                if not self.step(tid):
+                    break
+            return
+        target = tr.done.count(kind) + n
+        while not self.done[tid] and tr.done.count(kind) < target:
+            self.step(tid)
+
+    def run(self, segments):
+        for tid, kind, n in segments:
+            self.segment(tid, kind, n)
+        for i in range(len(self.ops)):
+            self.segment(i, "END", 1)
+        for t in self.threads:
+            t.join(self.timeout)
+        return self.results
+
+
+def enc_segments(segments):
+    return [[t, SEG_KINDS[k], n] for t, k, n in segments]
+
+
+def model_segments(scn, setup, tops, segments, afterops):
+    case = [61, enc_methods(scn), list(scn["defs0"]), enc_ops(setup), enc_ops(tops), enc_segments(segments), enc_ops(afterops)]
+    r = model.run_cases([case])[0]
+    return {"threads": [dec_outcome(o) for o in r[0]], "after": [dec_outcome(o) for o in r[1]]}
+
+
+def impl_segments(scn, setup, tops, segments, afterops):
+    im = Impl(scn)
+    for o in setup:
+        im.do(tuple(o))
+    sc = Sched(im, [tuple(o) for o in tops])
+    res = sc.run([tuple(s) for s in segments])
+    after = [im.do(tuple(o)) for o in afterops]
+    return {"threads": res, "after": after, "lines": list(sc.lines)}
